@@ -204,10 +204,13 @@ def run(ctx):
         if g.is_closure or not g.name.startswith(('solve::vanilla::solve_generic', 'solve::external::solve_external')):
             continue
         inf = False
-        for bi, si, st in g.assigns():
-            e = g.rvalue_expr(st['rv'], bi)
-            if e[0] == 'repeat' and is_const(e[1], float('inf')) and e[2] == '2':
-                inf = True
+        for g_ in [g] + lib.closures_of(g):
+            for bi, si, st in g_.assigns():
+                e = g_.rvalue_expr(st['rv'], bi)
+                if e[0] == 'repeat' and is_const(e[1], float('inf')) and e[2] == '2':
+                    inf = True
+                if e[0] == 'agg' and e[1] == 'array' and len(e[2]) == 2 and all(is_const(x, float('inf')) for x in e[2]):
+                    inf = True
         n += 1
         ctx.touch(g)
         ctx.verdict(inf, rule, '%s:%s' % (rule, g.name), 'both bounds start as f64::INFINITY (infinite exactly when no iteration ran, given C09.O3)', g.where(0), 'initialised with [INFINITY; 2]: %s' % inf)
